@@ -1033,8 +1033,39 @@ class Infer:
             self._ret_memo[f] = t
         return t
 
+    def getattr_wrapper(self, call, scope):
+        """`h(obj, "name")` where the repository function h is exactly `return getattr(<param>, <param>[, D])`:
+        -> (object expression, key expression, default expression or None, h); else None."""
+        if not isinstance(call.func, ast.Name) or call.keywords or any(isinstance(a, ast.Starred) for a in call.args):
+            return None
+        r = self.prog.resolve_in(scope, call.func.id) if isinstance(scope, Func) else self.prog.resolve_global(scope, call.func.id)
+        if not (r and r[0] == "func"):
+            return None
+        h = r[1]
+        body = [st for st in h.body if not (isinstance(st, ast.Expr) and isinstance(st.value, ast.Constant))]
+        if len(body) != 1 or not isinstance(body[0], ast.Return) or not isinstance(body[0].value, ast.Call):
+            return None
+        g = body[0].value
+        names = [p.name for p in h.params]
+        if dotted(g.func) != "getattr" or len(g.args) not in (2, 3) or g.keywords or len(call.args) != len(names):
+            return None
+        if not (isinstance(g.args[0], ast.Name) and isinstance(g.args[1], ast.Name) and g.args[0].id in names and g.args[1].id in names):
+            return None
+        amap = dict(zip(names, call.args))
+        default = g.args[2] if len(g.args) == 3 else None
+        if default is not None and any(isinstance(x, ast.Name) and x.id in names for x in ast.walk(default)):
+            return None
+        return amap[g.args[0].id], amap[g.args[1].id], default, h
+
     def _call_type(self, e, scope):
         d = dotted(e.func)
+        gw = self.getattr_wrapper(e, scope)
+        if gw is not None and isinstance(gw[1], ast.Constant) and isinstance(gw[1].value, str):
+            fake = ast.Attribute(value=gw[0], attr=gw[1].value, ctx=ast.Load())
+            t = self._attr_type(fake, scope)
+            if gw[2] is not None:
+                t = t | self.type_of(gw[2], gw[3])
+            return t
         ft = self.type_of(e.func, scope)
         out = set()
         if d == "type" and len(e.args) == 1:
@@ -1440,6 +1471,11 @@ class Infer:
                         for m in prog.methods_named("__eq__"):
                             sites.append(Site(func, n, m, "op", recv="UNKNOWNRECV", args=[], star=True, edge="cha"))
 
+        gw = self.getattr_wrapper(n, func) if isinstance(n, ast.Call) else None
+        if gw is not None and isinstance(gw[1], ast.Constant) and isinstance(gw[1].value, str):
+            # a getattr wrapper called with a literal name: the property getter of exactly that name
+            self._getter_sites(n, gw[0], gw[1].value, func, sites)
+            return
         if d == "getattr" and len(n.args) >= 2:
             key = n.args[1]
             if isinstance(key, ast.Constant) and isinstance(key.value, str):
